@@ -18,3 +18,14 @@ chk("C18",
     "(not named by the property); values are non-negative.",
     "Lean 4 proof (Nat.testBit extensionality) + exhaustive/random differential correspondence",
     "6/C18")
+chk("C16",
+    "Unbounded theorems (Props/C16.lean) for an arbitrary keyed digest of fixed positive length: the countdown loop of _tls_p_hash equals the "
+    "RFC 5246 P_hash stream (A(0)=seed, A(i)=HMAC(secret,A(i-1)), blocks HMAC(secret,A(i)||seed)) truncated to the requested length, for every "
+    "key, message and length; exact output length; independence of the block count and prefix property; HmacPRF's declared key/message "
+    "lengths enforced before computing; counter-mode hash expansion terminates, has exactly n bytes and equals H(m||1)||H(m||2)||... truncated; "
+    "XOFs delegate. Tied to toolkit/prf/hmac_prf.py and toolkit/hash.py by a differential run with the real hmac/hashlib digests recorded "
+    "and replayed as tables, plus the direct oracle against an independent RFC implementation.",
+    "Trusted: Lean kernel + 3 standard axioms; hmac/hashlib digests are leaves (recorded, assumed deterministic with one fixed positive length per "
+    "algorithm); 'distinct inputs give distinct outputs' is pseudo-randomness, sampled as a labelled test, not a theorem.",
+    "Lean 4 proof (loop invariant by induction) + recorded-oracle differential correspondence",
+    "6/C16")
